@@ -31,7 +31,7 @@ func c11(c *core.Ctx) {
 			nKey++
 			okKey := ssax.AnyIn(ssax.Backward(mu.Key), func(v ssa.Value) bool {
 				call, isCall := v.(*ssa.Call)
-				return isCall && isCallTo(call, "(*gmqtt.Subscription).GetFullTopicName") && call.Call.Args[0] == ssa.Value(paramOf(a, 1))
+				return isCall && isCallTo(call, "(*gmqtt.Subscription).GetFullTopicName") && rawArgs(call)[0] == ssa.Value(paramOf(a, 1))
 			})
 			c.Check(okKey, "C11.R1", fmt.Sprintf("gate|group-key#%d", nKey), ipos(c, in), "candidates grouped by $share/<group>/<filter>", "share-group candidates are not keyed by the full shared name: two groups on the same filter share one candidate list and only one of them receives the message")
 			// the candidate appended is this (clientID, sub)
